@@ -122,8 +122,7 @@ def record(ctx, src, kw, ml, thresh, cls, v):
     st = ctx.stats
     st.case(key=(src, sorted((k, str(x)) for k, x in kw.items()), ml), nontrivial=nt,
             classes=[cls] + ([cls + ':malformed'] if nt else []) + (['multi-language'] if ml else []),
-            sample={'src': src, 'opts': {k: x for k, x in kw.items() if x}, 'ml': ml, 'generator': cls}
-            if nt and st.evaluations % 1500 == 7 else None)
+            sample={'src': src, 'opts': {k: x for k, x in kw.items() if x}, 'ml': ml, 'generator': cls})
 
 
 def run_shard(ctx):
